@@ -1164,6 +1164,15 @@ def _case_size(case):
             1 if case['torn'] else 0, len(case['post'] or []))
 
 
+def _also_capped(every, case, cap=300):
+    """the `also` list of a failing clause (tools/BOUNDED_GUIDE.md): the failing cases in enumeration order,
+    capped; the reported (smallest) case is always a member: when it lies behind the cap it takes the last place"""
+    out = every[:cap]
+    if case not in out:
+        out = every[:cap - 1] + [case]
+    return out
+
+
 def bounded_store_crash(tier):
     import multiprocessing
 
@@ -1192,6 +1201,7 @@ def bounded_store_crash(tier):
     with ctxm.Pool(NPROC) as pool:
         results = pool.map(_worker, jobs, chunksize=1)
     best = {}
+    also = {}
     cases = nontrivial = distinct = 0
     for r in results:
         cases += r['cases']
@@ -1199,8 +1209,14 @@ def bounded_store_crash(tier):
         distinct += r['distinct']
         for f in r['fails']:
             key = (f['fid'], f['clause'])
+            # every failing case of the clause, in enumeration order (tools/BOUNDED_GUIDE.md, `also`).  The
+            # checks after the restart are evaluated once per distinct directory tree (see _worker): when
+            # both crash modes leave the same tree, only the 'exc' case of the pair is listed.
+            also.setdefault(key, []).append(f['case'])
             if key not in best or _case_size(f['case']) < _case_size(best[key]['case']):
                 best[key] = f
+    for key, f in best.items():
+        f['also'] = _also_capped(also[key], f['case'])
     fails = sorted(best.values(), key=lambda f: (f['fid'], f['clause']))
     mid = jobs[nhappy + (len(jobs) - nhappy) // 2]
     return {
@@ -1648,7 +1664,7 @@ def _edits_for(model, family):
     sub = rvs.etas if family == 'omega' else rvs.epsilons
     own = set(sub.names)
     dists = [d for d in _dists(model) if d[0][0] in own]
-    seen = set()
+    seen = {}  # insertion ordered (a set of names would make the 'fix all' / 'unfix all' cases depend on the hash seed)
     for names, level, rows in dists:
         n = len(names)
         for i in range(n):
@@ -1656,7 +1672,7 @@ def _edits_for(model, family):
                 x = rows[i][j]
                 if x is None or x in seen:
                     continue
-                seen.add(x)
+                seen[x] = True
                 v = float(model.parameters[x].init)
                 E.append(['init', x, round(v * 1.5 + 0.0137, 6) if i == j else round(v * 0.5, 6)])
     done = set()
@@ -1761,12 +1777,16 @@ def _edit_label(cls, edits):
 class _RFails:
     def __init__(self):
         self.items = {}
+        self.also = {}  # key -> every failing case of the key, in enumeration order
 
     def add(self, fid, clause, detail, lay, edits):
         key = (fid, clause)
         case = {'layout': {k: lay[k] for k in ('family', 'cls', 'pred', 'nt', 'ne', 'ns', 'theta', 'omega', 'sigma', 'spell', 'scaled') if k in lay},
                 'edits': edits, 'fid': fid, 'clause': clause}
         size = (len(edits), lay['nt'] + lay['ne'] + lay['ns'], len(lay['theta']) + len(lay['omega']) + len(lay['sigma']))
+        lst = self.also.setdefault(key, [])
+        if len(lst) < 300 and case not in lst:
+            lst.append(case)
         if key not in self.items or size < self.items[key][0]:
             self.items[key] = (size, {'fid': fid, 'clause': clause, 'detail': _short(detail, 900), 'case': case,
                                       'replay_fn': 'bounded_record_updates_replay'})
@@ -2007,6 +2027,8 @@ def _layout_worker(args):
     with contextlib.redirect_stdout(io.StringIO()), contextlib.redirect_stderr(io.StringIO()):
         try:
             cases, nontrivial, fails = _run_layout(lay, depth)
+            for key, (size, f) in fails.items.items():
+                f['also'] = fails.also[key]  # the failing cases of this layout; merged in bounded_record_updates
             return cases, nontrivial, list(fails.items.values())
         except BaseException as e:
             case = {'layout': lay, 'edits': [], 'fid': 'contracts/b_db.py:_run_layout', 'clause': 'checker runs to completion'}
@@ -2033,13 +2055,21 @@ def bounded_record_updates(tier):
         results = pool.map(_layout_worker, jobs, chunksize=1)
     cases = nontrivial = 0
     best = {}
+    also = {}
     for c, n, fl in results:
         cases += c
         nontrivial += n
         for size, f in fl:
             key = (f['fid'], f['clause'])
+            # every failing case of the clause, in enumeration order (tools/BOUNDED_GUIDE.md, `also`)
+            lst = also.setdefault(key, [])
+            mine = f.pop('also', [f['case']])
+            if len(lst) < 300:
+                lst.extend(mine)
             if key not in best or size < best[key][0]:
                 best[key] = (size, f)
+    for key, (size, f) in best.items():
+        f['also'] = _also_capped(also[key], f['case'])
     fails = [f for size, f in sorted(best.values(), key=lambda x: (x[1]['fid'], x[1]['clause']))]
     return {
         'cases': cases,
